@@ -237,7 +237,17 @@ SPositions ==
   \cup {Prop(Scope("after_until", Ev("t", "", NoPred), Ev("u", "", Pr(c))), Pat1("no", Ev("w", "", NoPred))) : c \in SPosRefs}
   \cup {Prop(Scope("globally", NoPred, NoPred), Pat2(t, Ev("u", "", Pr(c)), Ev("t", "", NoPred))) : t \in {"causes", "requires", "forbids"}, c \in SPosRefs}
   \cup {Prop(Scope("globally", NoPred, NoPred), Pat2(t, Ev("t", "", NoPred), Ev("u", "", Pr(c)))) : t \in {"causes", "requires", "forbids"}, c \in SPosRefs}
-SchemaShapes == SDisjAlias \cup SShadow \cup SPositions \cup
+\* an own-message path inside the index of an access rooted at an alias of ANOTHER message type (w: Other{n: string, q, arr, far[2]}):
+\* the path is resolved in the event's own message type (M), not in the alias's
+SAliasIdx ==
+  {Prop(Scope("after", Ev("w", "W", NoPred), NoPred), Pat1("no", Ev("u", "", Pr(c)))) :
+      c \in {Bn(">", Idx(Fld(VarR("@W"), "arr"), Own("k")), NumA("0")),          \* k: field of M only -> fine
+             Bn(">", Idx(Fld(VarR("@W"), "arr"), Own("q")), NumA("0")),          \* q: field of Other only -> NoField
+             Bn(">", Idx(Fld(VarR("@W"), "arr"), Idx(Own("fx"), NumA("1"))), NumA("0")),
+             Bn(">", Idx(Fld(VarR("@W"), "far"), Idx(Own("fx"), NumA("3"))), NumA("0")),   \* index out of range in M.fx
+             Bn(">", Idx(Fld(VarR("@W"), "arr"), Own("n")), NumA("0")),          \* n: number in M, string in Other
+             Bn(">", Idx(Own("xs"), Fld(VarR("@W"), "q")), Idx(Fld(VarR("@W"), "arr"), Idx(Own("xs"), Own("k"))))}}
+SchemaShapes == SDisjAlias \cup SShadow \cup SPositions \cup SAliasIdx \cup
   {Prop(Scope("after", Ev("t", "A", NoPred), NoPred), Pat1("no", Ev("u", "", Pr(c)))) : c \in SBound} \cup
   {Prop(Scope("after", Ev("t", "A", NoPred), NoPred), Pat1("no", Ev("u", "", Pr(c)))) : c \in SPreds \cup SRepeat}
   \cup {Prop(Scope("globally", NoPred, NoPred), Pat2("causes", Ev("t", "A", Pr(Bn(">", Own("n"), NumA("0")))), Ev("w", "", Pr(c)))) : c \in UNION {SCtx(r) : r \in {Own("n"), Own("q"), Fld(VarR("@A"), "n"), Fld(VarR("@A"), "q")}}}
